@@ -63,14 +63,17 @@ ValidDate(m, p) ==
     [] p.rep = "week" -> ValidWeek(m, p.y, p.a, p.b)
     [] OTHER -> FALSE
 
-\* time-of-day fields are in range and agree with the exact second-of-day
+\* time-of-day fields are in range and agree with the exact second-of-day.  For a point with a fractional
+\* unit the logged second-of-day is rounded to the nearest microsecond while the integer parts are truncated,
+\* so the two may differ by the one unit that rounding carries (59.9999999 s -> ss = 59, sod ends in :00).
 ValidTime(p) ==
+  LET slack == IF p.frac THEN 1 ELSE 0 IN
   /\ p.hh \in 0..24 /\ p.us \in 0..(MEG - 1) /\ p.sod \in 0..DAY
   /\ (p.hh = 24 => p.sod = DAY /\ p.us = 0)
   /\ (p.hh < 24 => p.sod < DAY)
-  /\ CASE p.prec = "hms" -> p.mi \in 0..59 /\ p.ss \in 0..59 /\ p.sod = p.hh * 3600 + p.mi * 60 + p.ss
-       [] p.prec = "hm"  -> p.mi \in 0..59 /\ p.sod - (p.hh * 3600 + p.mi * 60) \in 0..59
-       [] p.prec = "h"   -> p.sod - p.hh * 3600 \in 0..3599 \/ (p.hh = 24 /\ p.sod = DAY)
+  /\ CASE p.prec = "hms" -> p.mi \in 0..59 /\ p.ss \in 0..59 /\ p.sod - (p.hh * 3600 + p.mi * 60 + p.ss) \in 0..slack
+       [] p.prec = "hm"  -> p.mi \in 0..59 /\ p.sod - (p.hh * 3600 + p.mi * 60) \in 0..(59 + slack)
+       [] p.prec = "h"   -> p.sod - p.hh * 3600 \in 0..(3599 + slack) \/ (p.hh = 24 /\ p.sod = DAY)
        [] OTHER -> FALSE
 
 ValidTP(m, p) == ValidDate(m, p) /\ ValidTime(p) /\ ValidZone(p.zh, p.zm)
